@@ -308,7 +308,9 @@ Lemma ppar_child_end_l : forall c K lib dep q now cs inev mc t p q1 ci o rt mc' 
   snext c K lib dep ci inev mc = (RStop o rt, mc') ->
   snd (spec_step (OPeek true) q1) = RItem p' t' ->
   snext c K lib (S dep) (SPar true q now cs) inev mc =
-    (RYield (silent (VNum (nsub (F p') now)) inev) (SPar true q1 (F p') (set_nth (Z.to_nat t) SDone cs)) o, mc').
+    (RYield (if fix_ppar_rest c then put "delta" (VNum (nsub (F p') now)) (silent (VNum (nsub (F p') now)) inev)
+             else silent (VNum (nsub (F p') now)) inev)
+            (SPar true q1 (F p') (set_nth (Z.to_nat t) SDone cs)) o, mc').
 Proof.
   intros c K lib dep q now cs inev mc t p q1 ci o rt mc' p' t' Hpop Hnth Hs Hpeek.
   cbn [snext]. rewrite Hpop, Hnth, Hs, Hpeek. reflexivity.
